@@ -261,6 +261,25 @@ pub fn check_tree(
         }
     }
 
+    // ---- get, every ordered pair of distinct symbols in direct succession (an answer must not
+    // depend on the query before it). d^2 calls: for at most 140 distinct symbols, on every
+    // input of a million symbols or more and on one input in eight otherwise.
+    let d = m.pos.len();
+    if d >= 2 && d <= 140 && (n >= 1_000_000 || plan_seed % 8 == 5) {
+        let reps: Vec<(u128, usize)> = m.pos.iter().map(|(&c, pl)| (c, pl[(plan_seed as usize) % pl.len()])).collect();
+        ctx.label("get-pair-sweep");
+        for &(ca, pa) in &reps {
+            for &(cb, pb) in &reps {
+                note("get", pa as u128, 0, 0);
+                let ga = t.get(pa);
+                note("get", pb as u128, 0, 0);
+                let gb = t.get(pb);
+                ctx.queries += 2;
+                ensure!(ga == Some(ca) && gb == Some(cb), "{who}: get({pa}) then get({pb}) = {:?}, {:?}, expected Some({ca}), Some({cb}) (n = {n})", ga, gb);
+            }
+        }
+    }
+
     // ---- rank / rank_prefetch
     let syms = symbols(m, ty, &mut rng, 24);
     let full = n <= 400 && syms.len() <= 40;
